@@ -47,6 +47,7 @@ type meshTransport struct {
 	streamCh chan net.Conn
 	closed   chan struct{}
 	once     sync.Once
+	killed   bool // the process behind this transport was killed: nothing leaves it any more (guarded by net.mu)
 }
 
 type meshAddr string
@@ -71,7 +72,7 @@ func (f *meshTransport) dest(addr string) *meshTransport {
 	j := portIdx(addr)
 	f.net.mu.Lock()
 	defer f.net.mu.Unlock()
-	if f.net.dead[j] || f.net.dead[f.idx] || f.net.down[[2]int{f.idx, j}] {
+	if f.killed || f.net.dead[j] || f.net.dead[f.idx] || f.net.down[[2]int{f.idx, j}] {
 		return nil
 	}
 	return f.net.tr[j]
@@ -152,6 +153,7 @@ type mesh struct {
 	net   *meshNet
 	inst  []*meshInst
 	retired []*meshInst // earlier incarnations of restarted instances (their deliveries still count)
+	zombies []*meshInst // killed instances whose goroutines still have to be stopped at tear-down
 	yaml  string
 	root  string
 	epoch time.Time
@@ -290,6 +292,21 @@ func (m *mesh) restart(i int, keepData bool) {
 	m.start(i, in.dir)
 }
 
+// kill makes instance i's process vanish without a leave message: its transport goes silent (the address itself
+// stays usable for a successor). The goroutines are stopped at tear-down like every other retired instance.
+func (m *mesh) kill(i int) *meshInst {
+	in := m.inst[i]
+	m.net.mu.Lock()
+	if tr := m.net.tr[i]; tr != nil {
+		tr.killed = true
+	}
+	m.net.mu.Unlock()
+	m.retired = append(m.retired, in)
+	m.zombies = append(m.zombies, in)
+	m.inst[i] = nil
+	return in
+}
+
 func (m *mesh) live() []*meshInst {
 	var l []*meshInst
 	for _, in := range m.inst {
@@ -302,12 +319,13 @@ func (m *mesh) live() []*meshInst {
 
 func (m *mesh) stopAll() {
 	// release dead instances first so that nothing blocks on their transports
-	for _, in := range m.inst {
+	all := append(append([]*meshInst{}, m.inst...), m.zombies...)
+	for _, in := range all {
 		if in != nil {
 			in.f.stop()
 		}
 	}
-	for _, in := range m.inst {
+	for _, in := range all {
 		if in != nil {
 			in.peer.VerifShutdown()
 		}
